@@ -667,8 +667,21 @@ theorem getUserId_frame (st : St) (s : Str) :
 
 /-! ### `setUser`, `delUser` -/
 
-theorem setUser_inv {st : St} (hr : RecInv st) (u : User) (hn : hasLineBreak u.name = false) :
-    Inv (setUser st u).1 := by
+theorem finalRecord_spec {r : St} (hr : RecInv r) (u : User) (live : Bool)
+    (hn : hasLineBreak u.name = false) :
+    (finalRecord r u live).id = u.id ∧ hasLineBreak (finalRecord r u live).name = false := by
+  unfold finalRecord
+  cases live
+  · exact ⟨rfl, hn⟩
+  · simp only [if_true]
+    cases hg : r.db.getUserById u.id with
+    | none => exact ⟨rfl, hn⟩
+    | some w =>
+      obtain ⟨hm, hid⟩ := getUserById_spec hg
+      exact ⟨hid, hr.names w hm⟩
+
+theorem setUser_inv {st : St} (hr : RecInv st) (u : User) (hn : hasLineBreak u.name = false)
+    (live : Bool := true) : Inv (setUser st u live).1 := by
   unfold setUser
   simp only [hn, Bool.false_eq_true, if_false]
   have hi1 : Inv { st with hc := {}, nc := {}, nextId := max st.nextId u.id } := by
@@ -679,6 +692,7 @@ theorem setUser_inv {st : St} (hr : RecInv st) (u : User) (hn : hasLineBreak u.n
     omega
   have hi2 := getUserId_inv hi1 u.name
   have hfr := getUserId_frame { st with hc := {}, nc := {}, nextId := max st.nextId u.id } u.name
+  have hfin := finalRecord_spec hi2.recs u live hn
   split
   · exact hi2
   · split
@@ -687,18 +701,19 @@ theorem setUser_inv {st : St} (hr : RecInv st) (u : User) (hn : hasLineBreak u.n
       · exact putUser_nodup hi2.recs.nodup
       · intro v hv
         rcases mem_putUser' hi2.recs.nodup hv with e | e
-        · rw [e]; exact hn
+        · rw [e]; exact hfin.2
         · exact hi2.recs.names v e.1
       · intro v hv
         simp only
         rcases mem_putUser' hi2.recs.nodup hv with e | e
-        · rw [e, hfr.2.2]; simp only; omega
+        · rw [e, hfin.1, hfr.2.2]; simp only; omega
         · exact hi2.recs.ids v e.1
 
-theorem setUser_inv' {st : St} (hi : Inv st) (u : User) : Inv (setUser st u).1 := by
+theorem setUser_inv' {st : St} (hi : Inv st) (u : User) (live : Bool := true) :
+    Inv (setUser st u live).1 := by
   by_cases hn : hasLineBreak u.name = true
   · unfold setUser; simp only [hn, if_true]; exact hi
-  · exact setUser_inv hi.recs u (by simpa using hn)
+  · exact setUser_inv hi.recs u (by simpa using hn) live
 
 theorem find?_filter_of_found {α} {l : List α} {p q : α → Bool} {a : α}
     (h : l.find? p = some a) (hq : q a = true) : (l.filter q).find? p = some a := by
@@ -1086,7 +1101,7 @@ theorem step_inv {st : St} (hi : Inv st) (op : Op) : Inv (step st op).1 := by
     obtain ⟨h1, h2, h3⟩ := clearAuth_fold_inv hi u.auth
     have hu' : u ∈ (u.auth.foldl (fun s e => invalidateHost s e.2) st).db.users := by rw [h2]; exact hu
     have hrec := recInv_put_same (u := { u with auth := [] }) h1.recs ⟨u, hu', rfl, rfl⟩
-    exact setUser_inv hrec _ (hi.recs.names u hu)
+    exact setUser_inv hrec { u with auth := [] } (hi.recs.names u hu)
   | rename id name =>
     simp only [step]
     apply withUser_inv hi
@@ -1116,13 +1131,13 @@ theorem step_inv {st : St} (hi : Inv st) (op : Op) : Inv (step st op).1 := by
     apply withUser_inv hi
     intro u hu huid
     have hrec := recInv_put_same (u := { u with secure := b }) hi.recs ⟨u, hu, rfl, rfl⟩
-    exact setUser_inv hrec _ (hi.recs.names u hu)
+    exact setUser_inv hrec { u with secure := b } (hi.recs.names u hu)
   | load id name sec masks =>
     simp only [step]
-    have h1 := setUser_inv' hi { id := id, name := name, secure := sec, hostmasks := masks.foldl masksAdd [] }
+    have h1 := setUser_inv' hi { id := id, name := name, secure := sec, hostmasks := masks.foldl masksAdd [] } false
     split
     · exact h1
-    · exact setUser_inv' h1 _
+    · exact setUser_inv' h1 _ false
   | delUser id =>
     simp only [step]
     exact delUser_inv hi id
@@ -1171,14 +1186,14 @@ theorem run_inv {st : St} (hi : Inv st) (ops : List Op) : Inv (run st ops) := by
     exact ih (step_inv hi o)
 
 /-- shape of a successful `setUser` -/
-theorem setUser_ok_spec {st : St} {u : User} (h : (setUser st u).2 = .ok ()) :
-    ∃ r : St, (setUser st u).1 = { r with hc := {}, nc := {}, db := r.db.putUser u } ∧
-      overlaps r.db.users r.db.timeout r.now u = false := by
+theorem setUser_ok_spec {st : St} {u : User} {live : Bool} (h : (setUser st u live).2 = .ok ()) :
+    ∃ r : St, (setUser st u live).1 = { r with hc := {}, nc := {}, db := r.db.putUser (finalRecord r u live) } ∧
+      overlaps r.db.users r.db.timeout r.now (finalRecord r u live) = false := by
   unfold setUser at h ⊢
   split
   · rename_i hlb; simp only [hlb, if_true] at h; cases h
   · rename_i hlb
-    simp only [hlb, if_false] at h ⊢
+    simp only [hlb] at h ⊢
     split
     · rename_i e hc; simp only [hc] at h; cases h
     · rename_i hc
@@ -1187,5 +1202,269 @@ theorem setUser_ok_spec {st : St} {u : User} (h : (setUser st u).2 = .ok ()) :
       · rename_i ho; simp only [ho, if_true] at h; cases h
       · rename_i ho
         exact ⟨_, rfl, by simpa using ho⟩
+
+/-! ### the reverse index of the hostmask cache is complete
+`invalidateCache(hostmask=h)` does `self._hostmaskCache[id].remove(h)`, which would raise KeyError
+if the set of the cached id were missing or did not contain `h`; the model is tolerant there.
+`RevOK` shows that the tolerated case never arises in a reachable state. -/
+
+def RevOK (hc : HCache) : Prop :=
+  ∀ p ∈ hc.fwd, ∃ set, hc.rev.lookup p.2 = some set ∧ p.1 ∈ set
+
+theorem revOK_empty : RevOK {} := by intro p hp; cases hp
+
+theorem room_cases (hc : HCache) : hc.room = hc ∨ hc.room = {} := by
+  unfold HCache.room; split
+  · exact Or.inr rfl
+  · exact Or.inl rfl
+
+theorem revOK_room {hc : HCache} (h : RevOK hc) : RevOK hc.room := by
+  rcases room_cases hc with e | e <;> rw [e]
+  · exact h
+  · exact revOK_empty
+
+theorem revOK_cacheInsert {hc : HCache} (h : RevOK hc) (s : Str) (id : Nat) :
+    RevOK (cacheInsert hc s id) := by
+  have hr := revOK_room h
+  unfold cacheInsert
+  simp only
+  -- after `_hostmaskCache[s] = id`
+  have h1 : ∀ p ∈ (hc.setFwd s id).fwd, p = (s, id) ∨ (p ∈ hc.room.fwd) := by
+    intro p hp; unfold HCache.setFwd at hp; exact mem_dset hp
+  have hrev1 : (hc.setFwd s id).rev = hc.room.rev := rfl
+  cases hl : (hc.setFwd s id).rev.lookup id with
+  | some set =>
+    simp only
+    intro p hp
+    simp only at hp ⊢
+    rcases h1 p hp with e | e
+    · subst e
+      refine ⟨_, lookup_dset_self _ _ _, ?_⟩
+      split
+      · assumption
+      · simp
+    · obtain ⟨set', hs', hm'⟩ := hr p e
+      by_cases hid : p.2 = id
+      · rw [hid] at hs' ⊢
+        rw [hrev1] at hl
+        rw [hl] at hs'
+        injection hs' with hs'; subst hs'
+        refine ⟨_, lookup_dset_self _ _ _, ?_⟩
+        split
+        · exact hm'
+        · exact List.mem_append_left _ hm'
+      · refine ⟨set', ?_, hm'⟩
+        rw [lookup_dset_ne _ _ hid, hrev1]; exact hs'
+  | none =>
+    simp only
+    unfold HCache.setRev
+    rcases room_cases (hc.setFwd s id) with e | e
+    · rw [e]
+      intro p hp
+      simp only at hp ⊢
+      rcases h1 p hp with e' | e'
+      · subst e'; exact ⟨[s], lookup_dset_self _ _ _, by simp⟩
+      · obtain ⟨set', hs', hm'⟩ := hr p e'
+        by_cases hid : p.2 = id
+        · rw [hid, ← hrev1, hl] at hs'; cases hs'
+        · exact ⟨set', by rw [lookup_dset_ne _ _ hid, hrev1]; exact hs', hm'⟩
+    · rw [e]; intro p hp; cases hp
+
+theorem revOK_invalidateId {st : St} (h : RevOK st.hc) (id : Nat) : RevOK (invalidateId st id).hc := by
+  unfold invalidateId
+  simp only
+  cases hl : st.hc.rev.lookup id with
+  | none => exact h
+  | some set =>
+    simp only
+    intro p hp
+    simp only at hp ⊢
+    obtain ⟨hp1, hp2⟩ := List.mem_filter.1 hp
+    obtain ⟨set', hs', hm'⟩ := h p hp1
+    have hid : p.2 ≠ id := by
+      intro e
+      rw [e, hl] at hs'
+      injection hs' with hs'; subst hs'
+      have : set.contains p.1 = true := by simpa using hm'
+      rw [this] at hp2; cases hp2
+    exact ⟨set', by rw [lookup_ddel_ne _ hid]; exact hs', hm'⟩
+
+theorem revOK_invalidateHost {st : St} (h : RevOK st.hc) (x : Str) : RevOK (invalidateHost st x).hc := by
+  unfold invalidateHost
+  cases hl : st.hc.fwd.lookup x with
+  | none => exact h
+  | some id =>
+    simp only
+    apply revOK_invalidateId
+    simp only
+    intro p hp
+    simp only at hp ⊢
+    obtain ⟨hp1, hp2⟩ := mem_ddel hp
+    obtain ⟨set', hs', hm'⟩ := h p hp1
+    by_cases hid : p.2 = id
+    · rw [hid] at hs' ⊢
+      rw [hs']
+      simp only
+      have hm2 : p.1 ∈ set'.filter (fun y => y != x) := List.mem_filter.2 ⟨hm', by simpa using hp2⟩
+      have hne : (set'.filter (fun y => y != x)).isEmpty = false := by
+        cases hf : set'.filter (fun y => y != x) with
+        | nil => rw [hf] at hm2; cases hm2
+        | cons _ _ => rfl
+      rw [hne]
+      exact ⟨_, lookup_dset_self _ _ _, hm2⟩
+    · refine ⟨set', ?_, hm'⟩
+      cases hr : st.hc.rev.lookup id with
+      | none => simp only; exact hs'
+      | some set =>
+        simp only
+        split
+        · rw [lookup_ddel_ne _ hid]; exact hs'
+        · rw [lookup_dset_ne _ _ hid]; exact hs'
+
+theorem revOK_slowPath {st : St} (h : RevOK st.hc) (s : Str) : RevOK (slowPath st s).1.hc := by
+  unfold slowPath
+  split
+  · exact h
+  · exact revOK_cacheInsert h s _
+  · exact revOK_empty
+
+theorem revOK_getUserId {st : St} (h : RevOK st.hc) (s : Str) : RevOK (getUserId st s).1.hc := by
+  unfold getUserId
+  split
+  · unfold getUserIdHost
+    split
+    · split
+      · split
+        · exact h
+        · exact revOK_slowPath (revOK_invalidateHost h s) s
+      · exact revOK_slowPath h s
+    · exact revOK_slowPath h s
+  · unfold getUserIdName
+    simp only
+    split
+    · exact h
+    · split <;> exact h
+
+theorem revOK_setUser {st : St} (h : RevOK st.hc) (u : User) (live : Bool := true) :
+    RevOK (setUser st u live).1.hc := by
+  unfold setUser
+  split
+  · exact h
+  · simp only
+    have h1 : RevOK (getUserId { st with hc := {}, nc := {}, nextId := max st.nextId u.id } u.name).1.hc :=
+      revOK_getUserId revOK_empty _
+    split
+    · exact h1
+    · split
+      · exact h1
+      · exact revOK_empty
+
+theorem revOK_setUser' {st st' : St} (h : RevOK st.hc) (e : st'.hc = st.hc) (u : User) :
+    RevOK (setUser st' u).1.hc := revOK_setUser (by rw [e]; exact h) u
+
+theorem revOK_withUser {st : St} (h : RevOK st.hc) (id : Nat) (f : User → St × Out)
+    (hf : ∀ u, RevOK (f u).1.hc) : RevOK (withUser st id f).1.hc := by
+  unfold withUser
+  split
+  · exact hf _
+  · exact h
+
+theorem revOK_fold {st : St} (h : RevOK st.hc) (l : List (Int × Str)) :
+    RevOK (l.foldl (fun s e => invalidateHost s e.2) st).hc := by
+  induction l generalizing st with
+  | nil => exact h
+  | cons e es ih => simp only [List.foldl_cons]; exact ih (revOK_invalidateHost h e.2)
+
+theorem revOK_step {st : St} (h : RevOK st.hc) (op : Op) : RevOK (step st op).1.hc := by
+  cases op with
+  | register name hm =>
+    simp only [step]
+    split
+    · exact h
+    · cases hm with
+      | none => dsimp only; (refine revOK_setUser ?_ _; exact h)
+      | some hm =>
+        dsimp only
+        split
+        · exact h
+        · dsimp only; (refine revOK_setUser ?_ _; exact h)
+  | addHost id hm =>
+    simp only [step]
+    apply revOK_withUser h
+    intro u
+    split
+    · exact h
+    · split
+      · dsimp only; (refine revOK_setUser ?_ _; exact h)
+      · split
+        · dsimp only; (refine revOK_setUser ?_ _; exact h)
+        · split
+          · dsimp only; (refine revOK_setUser ?_ _; exact h)
+          · dsimp only; (refine revOK_setUser ?_ _; exact h)
+  | rmHost id hm =>
+    simp only [step]
+    apply revOK_withUser h
+    intro u
+    split
+    · exact h
+    · dsimp only; (refine revOK_setUser ?_ _; exact h)
+  | identify id hm =>
+    simp only [step]
+    apply revOK_withUser h
+    intro u
+    split
+    · exact h
+    · dsimp only; (refine revOK_setUser ?_ _; exact h)
+  | unidentify id =>
+    simp only [step]
+    apply revOK_withUser h
+    intro u
+    dsimp only [clearAuth]; (refine revOK_setUser ?_ _; exact revOK_fold h u.auth)
+  | rename id name =>
+    simp only [step]
+    apply revOK_withUser h
+    intro _
+    have hg := revOK_getUserId h name
+    split
+    · exact hg
+    · split
+      · exact hg
+      · apply revOK_withUser hg
+        intro u
+        dsimp only; (refine revOK_setUser ?_ _; exact hg)
+    · exact hg
+  | secure id b =>
+    simp only [step]
+    apply revOK_withUser h
+    intro u
+    dsimp only; (refine revOK_setUser ?_ _; exact h)
+  | load id name sec masks =>
+    simp only [step]
+    have h1 := revOK_setUser h { id := id, name := name, secure := sec, hostmasks := masks.foldl masksAdd [] } false
+    split
+    · exact h1
+    · exact revOK_setUser h1 _ false
+  | delUser id =>
+    simp only [step, delUser]
+    split
+    · exact h
+    · exact revOK_invalidateId revOK_empty id
+  | tick dt => exact h
+  | lookup s =>
+    simp only [step]
+    exact revOK_getUserId h s
+  | order id masks =>
+    simp only [step]
+    apply revOK_withUser h
+    intro u
+    split <;> exact h
+
+theorem revOK_run {st : St} (h : RevOK st.hc) (ops : List Op) : RevOK (run st ops).hc := by
+  induction ops generalizing st with
+  | nil => exact h
+  | cons o os ih =>
+    unfold run
+    simp only [List.foldl_cons]
+    exact ih (revOK_step h o)
 
 end C04
